@@ -113,6 +113,33 @@ Fixpoint utf8_ignore (b : list Z) : result (list Z) :=
       else if (x <? 194) || (244 <? x) then utf8_ignore t
       else Unmodelled
   end.
+(* bytes.decode('utf-16', errors='ignore') as the UTF-8 bytes of the resulting str, on the bytes this
+   model covers: a leading byte-order mark (FF FE = little endian, FE FF = big endian) is consumed and
+   selects the byte order, otherwise little endian (the native order of the platforms the library runs
+   on); every 16-bit unit outside the surrogate range D800..DFFF is one character of the basic plane
+   (a later FEFF is an ordinary character); a trailing odd byte is dropped ('ignore'); a surrogate unit
+   stops the model. *)
+Definition utf8_of_unit (u : Z) : list Z :=
+  if u <? 128 then [u]
+  else if u <? 2048 then [192 + u / 64; 128 + u mod 64]
+  else [224 + u / 4096; 128 + (u / 64) mod 64; 128 + u mod 64].
+Fixpoint utf16_units (big : bool) (b : list Z) : result (list Z) :=
+  match b with
+  | b0 :: b1 :: t =>
+      let u := if big then b0 * 256 + b1 else b1 * 256 + b0 in
+      if (55296 <=? u) && (u <? 57344) then Unmodelled
+      else do r <- utf16_units big t; Ok (utf8_of_unit u ++ r)
+  | _ => Ok []
+  end.
+Definition utf16_ignore (b : list Z) : result (list Z) :=
+  match b with
+  | b0 :: b1 :: t =>
+      if (b0 =? 255) && (b1 =? 254) then utf16_units false t
+      else if (b0 =? 254) && (b1 =? 255) then utf16_units true t
+      else utf16_units false b
+  | _ => Ok []
+  end.
+
 Fixpoint cut_at (c : Z) (l : list Z) : list Z :=
   match l with [] => [] | x :: t => if x =? c then [] else x :: cut_at c t end.
 (* str.strip() on ASCII text: \t \n \v \f \r, 0x1c..0x1f and space *)
@@ -140,16 +167,17 @@ Definition decode_string_lz (p off : Z) : result value :=
   | n :: rest => do t <- utf8_ignore (firstn (Z.to_nat n) rest); Ok (VText t)
   end.
 
+(* the text of a STRING_LAU body under its encoding byte: 0 = UTF-16, anything else = UTF-8 *)
+Definition lau_text (asc : Z) (body : list Z) : result (list Z) :=
+  if asc =? 0 then utf16_ignore body else utf8_ignore body.
+
 (* returns (text or None, bits_to_skip) *)
 Definition decode_string_lau (p off : Z) : result (value * Z) :=
   let x := Z.shiftr p off in
   let bytes := le_bytes (S (Z.to_nat ((bit_length x + 7) / 8))) x in
   match bytes with
   | n :: asc :: rest =>
-      let body := firstn (Z.to_nat (n - 2)) rest in
-      if asc =? 0 then
-        (match body with [] => Ok (VText [], n * 8) | _ => Unmodelled end)   (* UTF-16 *)
-      else do t <- utf8_ignore body; Ok (VText t, n * 8)
+      do t <- lau_text asc (firstn (Z.to_nat (n - 2)) rest); Ok (VText t, n * 8)
   | _ => Ok (VNone, zlen bytes)            (* len(byte_arr) < 2: (None, len(byte_arr)) *)
   end.
 
